@@ -1330,6 +1330,7 @@ int main(int argc, char **argv)
                     g.sh = &sh;
                     g.rep = &r;
                     g.iso.rep = &r;
+                    g.iso.tick = [&sh]() { if (sh.slot) sh.slot->beats = sh.slot->beats + 1; };
                     g.dry = args.getInt("dry", 0) != 0;
                     if (sh.resumed)
                       r.notes.push_back("worker restarted by the supervisor (should not happen: evaluation is isolated in child processes)");
@@ -1341,7 +1342,7 @@ int main(int argc, char **argv)
                                             "pointer {self, forward, back-into-self, offset==size, 0x3fff, last byte, header} over every length/pointer/"
                                             "terminator position of every name; mutual pointers over every pair of names; RDLENGTH in {0,len-1,len+1}. Substitutions inside the 12 "
                                             "header bytes and the count mutations are applied to the first compression layout of every spec only";
-                    r.bounds["stall_detection_s"] = "10";
+                    r.bounds["stall_detection_s"] = "30";
                   });
   return 0;
 }
